@@ -10,6 +10,8 @@ ENV = dict(os.environ, GOFLAGS="-mod=mod", GOPROXY="off", GOSUMDB="off", GOTOOLC
 # the tree the patch is applied to while the checks run: /repo, or (to work in parallel with other runs) a scratch worktree
 # of it named by SEED_REPO, in which case the checks are pointed at it with VERIF_REPO
 TARGET = os.environ.get("SEED_REPO", "/repo")
+# the checks run are those of the directory this script lives in (a snapshot copy of /verif works as well)
+VERIF = os.path.dirname(os.path.dirname(os.path.abspath(__file__)))
 if TARGET != "/repo":
     ENV["VERIF_REPO"] = TARGET
 
@@ -65,7 +67,7 @@ def main():
         finally:
             sh("git -C /repo worktree remove --force %s" % wt)
             shutil.rmtree(wt, ignore_errors=True)
-    dst = os.path.join("/verif/seeded", name)
+    dst = os.path.join(VERIF, "seeded", name)
     os.makedirs(dst, exist_ok=True)
     if result.get("patch_text"):
         open(os.path.join(dst, "patch.diff"), "w").write(result.pop("patch_text"))
@@ -81,7 +83,7 @@ def main():
     assert rc == 0, "apply to %s failed: %s" % (TARGET, out)
     try:
         for pid in ids:
-            rc, out = sh("./check %s --tier %s" % (pid, tier), cwd="/verif", timeout=7200)
+            rc, out = sh("./check %s --tier %s" % (pid, tier), cwd=VERIF, timeout=7200)
             viol = [l for l in out.splitlines() if l.startswith("VIOLATION")]
             desc = [l.strip() for l in out.splitlines() if l.strip().startswith("violation:")]
             checks[pid] = {"exit": rc, "violations": len(viol), "first": (desc[0][:300] if desc else (out.splitlines()[-1][:300] if out.strip() else ""))}
